@@ -23,7 +23,7 @@ def gen_base(rng):
     resources, rows = [], []
     for n in names:
         resources.append({'name': n, 'fields': [('k', 'integer'), ('v', 'string'), ('w', 'integer')]})
-        cnt = rng.choice([0, 1, 3, 12, 101, 130])
+        cnt = rng.choice([0, 0, 1, 3, 12, 101, 130])
         rows.append([{'k': i % 7, 'v': 'x%d' % i, 'w': (None if i % 5 == 4 else i)} for i in range(cnt)])
     return canon.make_descriptor(resources), rows, names
 
@@ -50,8 +50,9 @@ def discarding_suffix(rng, names):
             return out
         elif k in ('join_delete', 'join_keep'):
             sd = k == 'join_delete'
-            out.append((k, lambda n=names, sd=sd: DF.join(n[0], ['k'], n[1], ['k'], {'cnt': {'aggregate': 'count'}},
-                                                         source_delete=sd)))
+            jm = rng.choice(['inner', 'half-outer', 'full-outer'])
+            out.append((k + ':' + jm, lambda n=names, sd=sd, jm=jm: DF.join(n[0], ['k'], n[1], ['k'], {'cnt': {'aggregate': 'count'}},
+                                                                        source_delete=sd, mode=jm)))
             return out
         elif k == 'dedup':
             out.append((k, lambda: DF.set_primary_key(['k'])))
